@@ -299,6 +299,39 @@ pub fn trace(max_len: usize) -> BoxedStrategy<Vec<(u64, bool)>> {
     prop_oneof![4 => mixed, 1 => paced].boxed()
 }
 
+/// same-direction packets (or bursts of equal timestamps) repeated at a fixed step that sits on, or one
+/// nanosecond beside, the edges of the 100 ms and 1 s rate windows, sustained for well over a second and
+/// without jitter (what two window counters with different edge conventions disagree about)
+pub fn edge_trace(max_len: usize) -> BoxedStrategy<Vec<(u64, bool)>> {
+    (
+        select(vec![
+            100_000_000u64, 100_000_000, 100_000_000, 99_999_999, 100_000_001, 50_000_000, 200_000_000, 1_000_000_000, 999_999_999,
+            1_000_000_001, 33_333_333, 25_000_000, 10_000_000,
+        ]),
+        1usize..=4,
+        12usize..=30,
+        0u8..4,
+        proptest::collection::vec(any::<bool>(), 4),
+    )
+        .prop_map(move |(step, burst, steps, style, dirs)| {
+            let mut out = vec![];
+            for k in 0..steps {
+                for b in 0..burst {
+                    let sent = match style {
+                        0 => true,
+                        1 => false,
+                        2 => (k + b) % 2 == 0,
+                        _ => dirs[b % 4],
+                    };
+                    out.push((k as u64 * step, sent));
+                }
+            }
+            out.truncate(max_len.max(12));
+            out
+        })
+        .boxed()
+}
+
 /// traces whose timestamps are multiples of one millisecond (coincidences with grid machines)
 pub fn grid_trace(max_len: usize) -> BoxedStrategy<Vec<(u64, bool)>> {
     proptest::collection::vec((select(vec![0u64, 0, 1, 1, 2, 3, 5, 10]), any::<bool>()), 1..=max_len)
